@@ -35,6 +35,11 @@ pub enum Tok {
     Recv,
     /// outside a poll: run the receiver like an executor would until it parks, then check
     Settle,
+    /// the receiving task's cooperative budget is used up: until the receiver's poll returns to
+    /// the executor, every stream poll yields - it wakes its own waker immediately and returns
+    /// Pending (what tokio I/O resources do outside a scheduler context, e.g. in the body of
+    /// #[tokio::main])
+    Exhaust,
 }
 
 pub type Item = (u8, u32, u32); // key, generation, seq
@@ -68,6 +73,12 @@ pub struct World {
     dropped: Vec<(u8, u32)>,
     handle: Option<FairQueueHandle<ScriptStream, u8>>,
     pub two_busy: bool,
+    /// budget exhausted: streams yield until the receiver's poll returns
+    exhausted: bool,
+    pub exhausted_used: bool,
+    /// stream polls at the start of the current receiver poll
+    polls_at_recv_start: u64,
+    pub spin_detected: bool,
 }
 
 pub struct ScriptStream {
@@ -240,6 +251,15 @@ fn exec(world: &Arc<Mutex<World>>, t: Tok, in_window: bool) -> bool {
             }
             true
         }
+        Tok::Exhaust => {
+            let mut w = world.lock().unwrap();
+            if w.exhausted {
+                return false;
+            }
+            w.exhausted = true;
+            w.exhausted_used = true;
+            true
+        }
         Tok::Recv | Tok::Settle => false,
     }
 }
@@ -293,6 +313,15 @@ impl Stream for ScriptStream {
                 // a stream object the queue should no longer hold
                 w.streams[me].polled_after_end = true;
                 Poll::Ready(None)
+            } else if w.exhausted {
+                // yield: wake ourselves right away, hand nothing over
+                if w.stream_polls - w.polls_at_recv_start > 2_000 {
+                    // the queue keeps re-polling a stream that only yields: stop feeding the loop
+                    w.spin_detected = true;
+                } else {
+                    cx.waker().wake_by_ref();
+                }
+                Poll::Pending
             } else {
                 let s = &mut w.streams[me];
                 if let Some(it) = s.queue.pop_front() {
@@ -373,6 +402,10 @@ pub fn run_schedule(toks: &[Tok], n_keys: usize, block_on_no_clients: bool) -> R
         dropped: vec![],
         handle: Some(probe.handle()),
         two_busy: false,
+        exhausted: false,
+        exhausted_used: false,
+        polls_at_recv_start: 0,
+        spin_detected: false,
     }));
     let flag = Arc::new(RecvFlag {
         woken: AtomicBool::new(false),
@@ -395,9 +428,23 @@ pub fn run_schedule(toks: &[Tok], n_keys: usize, block_on_no_clients: bool) -> R
                        c06: &mut Vec<Failure>,
                        ended_none: &mut bool| {
         flag.woken.store(false, Ordering::SeqCst);
+        {
+            let mut w = world.lock().unwrap();
+            w.polls_at_recv_start = w.stream_polls;
+        }
         let mut cx = Context::from_waker(&waker);
         let r = Pin::new(&mut *probe).poll_next(&mut cx);
         let mut w = world.lock().unwrap();
+        // back at the executor: the next poll starts with a fresh budget
+        w.exhausted = false;
+        if w.spin_detected {
+            w.spin_detected = false;
+            fail!(
+                c06,
+                "C06/queue/spins-on-a-stream-that-yields",
+                "within ONE poll of the receiver the queue polled its streams more than 2000 times: a stream that returns Pending after waking itself (a yield, e.g. tokio I/O with the task's cooperative budget used up) is re-polled in a loop instead of the receiver returning to its executor"
+            );
+        }
         match r {
             Poll::Ready(Some((key, item))) => {
                 *parked = Some(false);
@@ -580,7 +627,7 @@ pub fn run_schedule(toks: &[Tok], n_keys: usize, block_on_no_clients: bool) -> R
 }
 
 pub fn alphabet(n_keys: usize, with_stale: bool) -> Vec<Tok> {
-    let mut v = vec![Tok::Recv, Tok::Settle];
+    let mut v = vec![Tok::Recv, Tok::Settle, Tok::Exhaust];
     for i in 0..n_keys as u8 {
         v.push(Tok::Insert(i));
         v.push(Tok::Push(i));
@@ -605,6 +652,7 @@ pub fn show(toks: &[Tok]) -> String {
             Tok::StaleWake(i) => format!("W{}", i),
             Tok::Recv => "R".into(),
             Tok::Settle => "S".into(),
+            Tok::Exhaust => "E".into(),
         })
         .collect::<Vec<_>>()
         .join(" ")
